@@ -100,7 +100,7 @@ ADD = {
  "C02": "Sessions also return to a branch the client had abandoned (extended), run on a database with legacy-location index entries, and make the store's WriteHeaders fail (completeness is not promised for such a step).",
  "C03": "Further families: a legacy-location index with reorganisations inside the write window; 2-3 hard-coded filter checkpoints with lists false at an older one only (multicp); block downloads that fail during a conflict with a liar majority (blockfail, also on the complete client); batched cfheaders answers cut short (truncbatch); two-stage sessions in which an at-tip sync leaves a filter tip that is not a multiple of 1000 before the client falls a whole interval behind.",
  "C04": "Further phases: the honest chain returns to the branch the client left (reorg-return); a restart while peers had withheld filter headers, chain at rest afterwards; fixed scenarios with forks exactly at genesis / at the last passed checkpoint.",
- "C05": "Further families: reorganisations between calls with peers serving the replaced block's filter under the new hash; requests above the filter-header tip answered with the filter of a block L below (lag-shift), for unbatched / reverse / forward batches.",
+ "C05": "Further families: reorganisations between calls with peers serving the replaced block's filter under the new hash; requests above the filter-header tip answered with the filter of a block L below (lag-shift), for unbatched / reverse / forward batches. Calls of the lag family reach the far end of the lag (unbatched / forward, 3-4 blocks above the filter-header tip); the runner's resource monitor (peak resident memory of the client process above 2500 MiB = violation) watches every scenario.",
  "C06": "Ban histories (ban, unban, re-offend, other port, restart) and IPv4 / IPv6 / mapped / expanded address spellings: after an invalid block from a host was handled it is banned under every spelling; a header lookup that answers a hash with another block's header (wrapped exported store) must never make GetBlock return that block.",
  "C07": "A third part injects double faults: an append torn to every left-over class whose clean-up truncate also fails, then reopen, append, reopen, rollback, re-add (reads beyond the tip are judged only after the reopen when a whole stray record remains, as the unchanged code needs the open-time trim). Block locators are compared exactly with the documented rule (ten single steps, then doubling). A fourth part runs readers CONCURRENTLY with the writer: one goroutine applies a seeded history while three call every read method of both stores; calls and returns are stamped at the client boundary and porcupine checks the recorded history for linearizability against the plain list (timeout = inconclusive); a history that stops making progress is decided by two identical goroutine dumps (lock cycle inside headerfs = violated).",
  "C08": "START-UP family: every write-transaction boundary of neutrino.NewChainService on an empty directory (recorded in a dry run), torn genesis appends, a second generation (crash during the recovery start) and real SIGKILL at the same points; the restart goes through NewChainService. After a restart on an image whose filter tip is below its block tip, filter-header syncing must resume without a new block.",
@@ -110,7 +110,7 @@ ADD = {
  "C12": "Further families: real queries through the real ServerPeer adaptor while peers are disconnected locally mid-answer (complete client); progress-then-stall batches under ProgressTimeout held until the verdict; same-address reconnects during quiet periods after which the reconnected peer is the only responsive one.",
  "C13": "Further enforcement scenarios: a liar about an unparseable output script with a bounded-progress rule (N conflicts on the table and the proof served, liar still unbanned); conflicts in which every participant is a liar or mute.",
  "C15": "A co-subscriber family lets other subscribers (0..100+ unread notifications) and real rescans share the subscription manager with the broadcaster and cancel at seeded moments; rebroadcast must be observed within K committed blocks. Tick mode with a busy handler: while unrelated calls arrive closer together than the interval for N >= 20 intervals (counted by chained timers of the harness) at least one tick-started round containing the pending transaction must start.",
- "C17": "A peer-state API family calls ConnectedCount / Peers / ConnectNode / Disconnect* / BanPeer ... across Stop with a scripted NameResolver holding a lookup inside the peer handler; permanent peers given as host names that never resolve; Stop while a rebroadcast is in flight.",
+ "C17": "A peer-state API family calls ConnectedCount / Peers / ConnectNode / Disconnect* / BanPeer ... across Stop with a scripted NameResolver holding a lookup inside the peer handler; permanent peers given as host names that never resolve; Stop while a rebroadcast is in flight. A start-state family stops a client that was never started, or whose Start failed in the headers import (seven failure kinds), starts it again / opens a second client on the directory, stops twice. The scenario runner reads every client process's peak resident memory from its rusage: above 2500 MiB (scenarios need 100-300) is a violation (a process that is OOM-killed or thrashes returns from neither the call nor Stop).",
  "C14": "A filter-checkpoint family puts 1-3 hard-coded filter-header checkpoints in force (verif hook, private network magic per case) on parameter sets with and without block checkpoints: a file contradicting one must be refused, and nothing an import adds may contradict one.",
  "C19": "The filter sessions include two-stage sessions (partial first interval of a checkpointed sync) and truncated batches.",
  "C01": "",
